@@ -6,9 +6,11 @@
 import CklVerif.Driver.Basic
 import CklVerif.Driver.SeqDate
 import CklVerif.Driver.EvalCmd
+import CklVerif.Driver.ParserCmd
+import CklVerif.Driver.LexerCmd
 open Ckl
 
-def handlers : List (Sx → Option Sx) := [handleValue, handleSeqDate, handleEval]
+def handlers : List (Sx → Option Sx) := [handleValue, handleSeqDate, handleEval, handleParser, handleLexer]
 
 def dispatch (req : Sx) : Sx :=
   match handlers.findSome? (fun h => h req) with
